@@ -103,6 +103,12 @@ Section Refine.
   Proof. reflexivity. Qed.
 End Refine.
 
+(* both branches of refine_droplets hand EVERY candidate of a one-shot iterable to the tasks *)
+Lemma candidates_all_dispatched {A : Type} (xs : list A) :
+  rd_serial_iterates_once = true /\ rd_parallel_iterates_once = true /\
+  seen_by_dispatch rd_parallel_uses_of_candidates false xs = Some xs.
+Proof. repeat split; reflexivity. Qed.
+
 (* ---- refine_droplets: option dicts handed in by the caller ----------------------------------- *)
 Section RefineOptions.
   (* `options`: state of the caller's least_squares_params dict; `task d o c` = what the worker call d returns for
